@@ -23,6 +23,7 @@ import (
 	"go/ast"
 	"go/token"
 	"go/types"
+	"os"
 	"sort"
 	"strings"
 )
@@ -118,6 +119,88 @@ func resolveRoles(pi *pkgInfo, dir string) []string {
 	return tracked
 }
 
+// Packages in which mutex-guarded state is found from the source instead of being listed: every field of a struct
+// that also has a sync.Mutex / sync.RWMutex field (other than mutexes, condition variables, channels, wait groups
+// and atomics) is a tracked field, under its rename-proof name.  A struct that gains a mutex and a map tomorrow is
+// in the table the same day.  (Packages whose guarded structs are covered by the reviewed roles above, or whose
+// structs need reviewed ownership entries first, are listed in DESIGN section 11.)
+var autoGuardDirs = []string{"banman", "pushtx", "filterdb", "chainimport"}
+
+func autoGuarded(pi *pkgInfo) []string {
+	byStruct := map[string][]*types.Var{}
+	hasMutex := map[string]bool{}
+	// the struct a field belongs to: from its Go name "pkg.Type.field" (the type key inside a stable name may
+	// contain dots itself: "banStore.map[string]banman.Status#1")
+	structOf := func(v *types.Var) string {
+		g := pi.fieldName[v]
+		if i := strings.LastIndex(g, "."); i >= 0 {
+			return g[:i]
+		}
+		return ""
+	}
+	for v, n := range pi.stableName {
+		st := structOf(v)
+		if st == "" || !strings.HasPrefix(n, st+".") {
+			continue
+		}
+		byStruct[st] = append(byStruct[st], v)
+		if strings.HasPrefix(n[len(st)+1:], "mutex#") {
+			hasMutex[st] = true
+		}
+	}
+	var out []string
+	for st, vs := range byStruct {
+		if !hasMutex[st] {
+			continue
+		}
+		for _, v := range vs {
+			n := pi.stableName[v]
+			key := n[len(st)+1:]
+			ts := v.Type().String()
+			if strings.HasPrefix(key, "mutex#") || strings.HasPrefix(key, "cond#") || strings.HasPrefix(ts, "chan ") ||
+				strings.HasPrefix(ts, "<-chan ") || strings.HasPrefix(ts, "chan<- ") || strings.HasPrefix(ts, "sync.") ||
+				strings.HasPrefix(ts, "sync/atomic.") || strings.HasPrefix(ts, "func(") {
+				continue
+			}
+			out = append(out, n)
+		}
+	}
+	sort.Strings(out)
+	return out
+}
+
+// freshLocals: local variables of fd initialised from a composite literal (or its address) or new(T)
+func freshLocals(pi *pkgInfo, fd *ast.FuncDecl) map[types.Object]bool {
+	out := map[types.Object]bool{}
+	isFresh := func(e ast.Expr) bool {
+		if u, ok := e.(*ast.UnaryExpr); ok && u.Op == token.AND {
+			e = u.X
+		}
+		switch c := e.(type) {
+		case *ast.CompositeLit:
+			return true
+		case *ast.CallExpr:
+			if id, ok := c.Fun.(*ast.Ident); ok && id.Name == "new" {
+				return true
+			}
+		}
+		return false
+	}
+	ast.Inspect(fd.Body, func(n ast.Node) bool {
+		if as, ok := n.(*ast.AssignStmt); ok && as.Tok == token.DEFINE && len(as.Lhs) == len(as.Rhs) {
+			for i, l := range as.Lhs {
+				if id, ok := l.(*ast.Ident); ok && isFresh(as.Rhs[i]) {
+					if o := pi.info.ObjectOf(id); o != nil {
+						out[o] = true
+					}
+				}
+			}
+		}
+		return true
+	})
+	return out
+}
+
 var mutatingMethods = map[string]bool{
 	"PushFront": true, "PushBack": true, "Remove": true, "MoveToFront": true, "MoveToBack": true, "MoveBefore": true,
 	"MoveAfter": true, "InsertBefore": true, "InsertAfter": true, "Init": true, "PushBackList": true, "PushFrontList": true,
@@ -188,6 +271,11 @@ type acqRow struct {
 }
 
 type accessWalker struct {
+	// auto-tracked fields (mutex-guarded state found in the source) and the local variables of this function that
+	// hold an object it has just built itself (`x := &T{...}` / `T{...}` / `new(T)`): accesses to auto-tracked
+	// fields through such a variable are made before the object is shared and are not rows
+	auto    map[string]bool
+	fresh   map[types.Object]bool
 	rels    *[]acqRow
 	async   bool
 	acqs    *[]acqRow
@@ -370,6 +458,11 @@ func (w *accessWalker) exprs(n ast.Node, held lockSet) {
 			}
 		case *ast.SelectorExpr:
 			if name, ok := fieldOf(w.pi, v); ok && w.tracked[name] {
+				if w.auto[name] {
+					if id, isID := v.X.(*ast.Ident); isID && w.fresh[w.pi.info.ObjectOf(id)] {
+						return true
+					}
+				}
 				*w.rows = append(*w.rows, accessRow{name, w.writes[v], w.fn, w.rel, fset.Position(v.Pos()).Line, held.sorted(), w.inGo, v.Pos()})
 			}
 		}
@@ -529,6 +622,23 @@ func extractAccessTable() {
 	for d := range fieldRoles {
 		dirs = append(dirs, d)
 	}
+	autoDirs := append([]string(nil), autoGuardDirs...)
+	if try := os.Getenv("C18_AUTO_TRY"); try != "" {
+		// exploration only (like TRANS_TRY): which mutex-guarded fields the listed packages would add
+		for _, d := range strings.Split(try, ",") {
+			if d == "." {
+				d = ""
+			}
+			autoDirs = append(autoDirs, d)
+		}
+	}
+	isAutoDir := map[string]bool{}
+	for _, d := range autoDirs {
+		if _, ok := fieldRoles[d]; !ok && !isAutoDir[d] {
+			dirs = append(dirs, d)
+		}
+		isAutoDir[d] = true
+	}
 	sort.Strings(dirs)
 	seenField := map[string]bool{}
 	trackedRoles := map[string][]string{}
@@ -542,6 +652,16 @@ func extractAccessTable() {
 		trackedRoles[dir] = resolveRoles(pi, dir)
 		for _, f := range trackedRoles[dir] {
 			tracked[f] = true
+		}
+		auto := map[string]bool{}
+		if isAutoDir[dir] {
+			for _, n := range autoGuarded(pi) {
+				if !tracked[n] {
+					tracked[n], auto[n] = true, true
+					dynFields = append(dynFields, n)
+					fmt.Printf("extract: C18 mutex-guarded field found in the source: %s\n", n)
+				}
+			}
 		}
 		// per-response callbacks of the work manager (root package): the receiver structs' fields are tracked too
 		relOf := func(base string) string {
@@ -586,7 +706,7 @@ func extractAccessTable() {
 					continue
 				}
 				noteFunc(funcs, pi, fd)
-				w := &accessWalker{pi: pi, rel: rel, fn: funcName(pi, fd), tracked: tracked,
+				w := &accessWalker{auto: auto, fresh: freshLocals(pi, fd), pi: pi, rel: rel, fn: funcName(pi, fd), tracked: tracked,
 					writes: map[*ast.SelectorExpr]bool{}, rows: &rows, calls: &calls, acqs: &acqs, rels: &rels}
 				w.findWrites(fd.Body)
 				w.block(fd.Body.List, nil)
